@@ -93,7 +93,7 @@ def gen_cases(ctx, n_per_kind):
     cases = []
     for kind in ("pixel", "fourier", "hybrid"):
         for i in range(n_per_kind):
-            N = int(rng.choice([48, 64]))
+            N = [48, 49, 64, 65][(i + int(rng.integers(0, 4))) % 4]     # even and odd image sides
             t = EXT[i % 5]
             if kind == "pixel" and t == "dev":
                 t = "sersic"          # the pixel renderer's tolerance is stated for n ≤ 2.5; `dev` fixes n = 4
@@ -122,7 +122,7 @@ def gen_cases(ctx, n_per_kind):
         # (xc, yc) and the stamp's geometric centre (up to 15 % of the peak for these widths — its documented approximation); with an
         # odd stamp and an integer centre no interpolation takes place, and the property's pixel tolerance applies.
         for i in range(max(2, n_per_kind // 2)):
-            N = int(rng.choice([48, 64]))
+            N = [48, 49, 64, 65][(i + int(rng.integers(0, 4))) % 4]     # even and odd image sides
             t = ["sersic_pointsource", "pointsource"][i % 2]
             sig = float(rng.uniform(1.1, 1.6))
             size = int(rng.choice([11, 13])) if kind == "pixel" else int(rng.choice([11, 12, 13]))
